@@ -16,3 +16,7 @@ Fixpoint lum_of_rgba (l : list Z) : list Z :=
   end.
 Definition lum_rows (rows : list Z) : list Z :=
   flat_map (fun a => map (fun c => lum_mask_u8 (Z.min c a) (Z.min c a) (Z.min c a) a) bytes) rows.
+(* second pass: rows o = lo .. lo + n - 1 of the opacity table, index (o - lo) * 256 + c *)
+Definition opacity_rows (lo : Z) (n : nat) : list Z :=
+  flat_map (fun k => let o := opacity_of_byte k in map (fun c => opacity_u8 c o) bytes) (zrange n lo).
+Definition opacity_row_f (o : f32) : list Z := map (fun c => opacity_u8 c o) bytes.
